@@ -79,7 +79,8 @@ def main():
     if in_repo:
         assert run(f"git -C {REPO} status --porcelain").stdout.strip() == "", "/repo has uncommitted changes"
         jobs = 1
-    dirs = [d for d in sorted(glob.glob(os.path.join(HERE, "seeded", "*"))) if os.path.isdir(d) and (not names or os.path.basename(d) in names)]
+    dirs = [d for d in sorted(glob.glob(os.path.join(HERE, "seeded", "*")))
+            if os.path.isdir(d) and os.path.exists(os.path.join(d, "meta.json")) and (not names or os.path.basename(d) in names)]
     rows = []
     with ThreadPoolExecutor(jobs) as ex:
         for row in ex.map(lambda d: one(d, tier, in_repo), dirs):
